@@ -14,6 +14,7 @@
 From Coq Require Import Arith List ZArith Ring Field.
 Require Import Base.C02_Ops Model.C02_Integration Proofs.C02_IntegrationProofs Gen.C02Gen Dyn.C02Tie.
 Require Model.C08_Rules Proofs.C08_TensorProofs.
+Require Import Base.C09_Poly Base.C09_PolyQ Model.C02_PolyInt Proofs.C02_PolyIntProofs Gen.C02Elems Dyn.C02TieElems.
 Import ListNotations.
 
 Section AnyRing.
@@ -136,12 +137,12 @@ Print Assumptions C02_absdet_vertex_order_partial.
 
 (* default integration order 2*maxdeg covers the product of two monomials of degree <= maxdeg; an explicit
    order is used as given *)
-Theorem C02_default_order_partial : forall (maxdeg k : nat) (a b : list nat),
+Theorem C02_default_order : forall (maxdeg k : nat) (a b : list nat),
   gen_intorder (Some k) maxdeg = k /\
   (length a = length b -> list_sum a <= maxdeg -> list_sum b <= maxdeg ->
    list_sum (exp_add a b) <= gen_intorder None maxdeg).
 Proof. intros. split; [apply explicit_order_respected|apply default_order_covers_mass]. Qed.
-Print Assumptions C02_default_order_partial.
+Print Assumptions C02_default_order.
 
 (* the tensor-product construction of the quadrilateral / hexahedron / prism rules (proved with C08, unbounded:
    ANY two rules, ANY degree): exact factors give an exact product rule *)
@@ -156,6 +157,95 @@ Theorem C02_tensor_rule_exact :
     QArith_base.Qeq (C08_Rules.qrule_sum (C08_Rules.tensorQ R1 R2) es) (C08_Rules.exactQ (s1 ++ s2) es).
 Proof. exact C08_TensorProofs.tensor_rule_exact. Qed.
 Print Assumptions C02_tensor_rule_exact.
+
+(* ================================================================== exact reference matrices (deepening round)
+   The polynomials vals of every listed element are those of its REAL lbasis (symbolic execution, regenerated on
+   every run).  [pint s p] integrates a normal-form polynomial over the reference cell s with the closed form of
+   C08 (Dirichlet formula a!b!c!/(a+b+c+d)! on every simplex factor, Fubini across factors). *)
+From Coq Require Import QArith Qabs.
+Local Open Scope Q_scope.
+
+(* exact integration is linear and is the closed form on monomials *)
+Theorem C02_pint_linear_and_monomials : forall (s : C08_Rules.shape) (p q : poly) (c : Q) (m : mono),
+  pint s (padd p q) == pint s p + pint s q /\ pint s (pscale c p) == c * pint s p /\
+  pint s (psub p q) == pint s p - pint s q /\
+  pint s [(c, m)] == c * C08_Rules.exactQ s (pad (C08_Rules.dim s) m) /\
+  pint s (pconst c) == c * C08_Rules.measureQ s.
+Proof.
+  intros. split; [apply pint_padd|]. split; [apply pint_pscale|]. split; [apply pint_psub|].
+  split; [apply pint_monomial|apply pint_const].
+Qed.
+Print Assumptions C02_pint_linear_and_monomials.
+
+(* for every generated element (P0-P4 on segment / triangle / tetrahedron as available, Q0-Q2, Hex0-1, Wedge1; list
+   in the evidence) the rational literal re_mass IS the matrix of the exact integrals int phi_i phi_j over the
+   reference cell (one lemma mass_ref_<elem>_exact per element, closed by vm_compute), and for the P1/P2/Q1/Q2 elements
+   the stiffness literal is the matrix of int grad phi_i . grad phi_j *)
+Theorem C02_reference_mass_exact :
+  Forall (fun e => qmat_eqb (mass_ref (re_shape e) (re_vals e)) (re_mass e) = true) ref_elements.
+Proof. exact ref_mass_exact. Qed.
+Print Assumptions C02_reference_mass_exact.
+Theorem C02_reference_stiffness_exact :
+  Forall (fun e => qmat_eqb (stiff_ref (fst (fst e)) (snd (fst e))) (snd e) = true) stiff_elements.
+Proof. exact stiff_elements_ok. Qed.
+Print Assumptions C02_reference_stiffness_exact.
+
+(* quadrature error of a polynomial: a rule that integrates the monomials of its advertised degree to within tol
+   (C08: tol = 2^-45) integrates every polynomial whose terms have that degree to within (sum |coeff|) * tol *)
+Theorem C02_quadrature_error_of_polynomial :
+  forall (s : C08_Rules.shape) (R : C08_Rules.qrule) (n : nat) (tol : Q) (p : poly),
+  C08_Rules.rule_okQ s R n tol -> poly_ok s n p = true ->
+  Qabs (qrule_int R (C08_Rules.dim s) p - pint s p) <= l1 p * tol.
+Proof. exact quad_error. Qed.
+Print Assumptions C02_quadrature_error_of_polynomial.
+
+(* the discrete integral is the point-by-point sum  sum_q w_q p(x_q)  (qeval = evaluation of Base.C09_PolyQ) *)
+Theorem C02_discrete_integral_pointwise :
+  forall (R : C08_Rules.qrule) (d : nat) (p : poly),
+  (forall nd, In nd R -> length (fst nd) = d) -> (forall t, In t p -> (length (snd t) <= d)%nat) ->
+  qrule_int R d p == qrule_apply R (fun pt => qeval p (lpt pt)).
+Proof. exact qrule_int_pointwise. Qed.
+Print Assumptions C02_discrete_integral_pointwise.
+
+(* THE ASSEMBLED REFERENCE MASS MATRIX IS CLOSE TO THE EXACT ONE: for every generated element, with the default
+   integration order 2*maxdeg read from abstract_basis.py, every rule R that delivers that order to within tol
+   (C08 proves it for every rule get_quadrature returns, tol = 2^-45) gives
+       | sum_q w_q phi_i(x_q) phi_j(x_q)  -  int phi_i phi_j |  <=  l1(phi_i phi_j) * tol
+   for all shape functions phi_i, phi_j of the element, and int phi_i phi_j is the rational literal above. *)
+Theorem C02_assembled_reference_mass_close :
+  forall e, In e ref_elements ->
+  forall (R : C08_Rules.qrule) (tol : Q), C08_Rules.rule_okQ (re_shape e) R (gen_intorder None (re_maxdeg e)) tol ->
+  forall a b, In a (re_vals e) -> In b (re_vals e) ->
+    Qabs (qrule_int R (C08_Rules.dim (re_shape e)) (pmul a b) - pint (re_shape e) (pmul a b)) <= l1 (pmul a b) * tol.
+Proof. exact assembled_ref_mass_close. Qed.
+Print Assumptions C02_assembled_reference_mass_close.
+Close Scope Q_scope.
+
+(* deg (p o F) <= deg p for affine F (any dimension), hence data of degree k times two shape functions of degree
+   <= maxdeg has degree <= k + 2*maxdeg on the reference cell: the default order covers the mass matrix (k = 0) *)
+Theorem C02_pullback_degree :
+  forall (F : nat -> poly) (f a b : poly) (k m : nat),
+  (forall j, pdeg (F j) <= 1) ->
+  pdeg (psubst F f) <= pdeg f /\
+  (pdeg f <= k -> pdeg a <= m -> pdeg b <= m -> pdeg (pmul (psubst F f) (pmul a b)) <= k + gen_intorder None m) /\
+  (pdeg a <= m -> pdeg b <= m -> pdeg (pmul a b) <= gen_intorder None m).
+Proof.
+  intros F f a b k m HF. split; [exact (pullback_degree F f HF)|]. split.
+  - intros. now apply pullback_times_shape_functions.
+  - intros. now apply default_order_covers_products.
+Qed.
+Print Assumptions C02_pullback_degree.
+
+(* on affine cells the mass entry (summed over the cells) is  sum_e |detA_e| * (reference quadrature entry):
+   exact physical entry = |detA| * exact reference entry.  ASSUMED calculus fact (not formalised): change of variables
+   int_{F(K^)} f = |det A| int_{K^} f o F for the affine F of the cell. *)
+Theorem C02_affine_mass_factorises :
+  forall (R : Type) (O : ops R), ring_theory (o0 O) (o1 O) (oadd O) (omul O) (osub O) (oopp O) (@eq R) ->
+  forall (ne nq : nat) (phi : nat -> nat -> R) (absf : R -> R) (detA : nat -> R) (W : nat -> R) (i j : nat),
+  mass_entry O ne nq (fun i e q => phi i q) (gen_cell_dx O absf (gen_detDF detA) W) i j
+  = rsum O (seq 0 ne) (fun e => omul O (absf (detA e)) (rsum O (seq 0 nq) (fun q => omul O (omul O (phi i q) (phi j q)) (W q)))).
+Proof. intros R O Rth ne nq phi absf detA W i j. exact (affine_mass_factorises R O Rth ne nq phi (fun e => absf (detA e)) W i j). Qed.
+Print Assumptions C02_affine_mass_factorises.
 
 (* ---- non-vacuity: Z and Qc are instances; a mirrored triangle has det -1, |det| 1; a concrete inverse *)
 Example C02_instances :
